@@ -565,6 +565,7 @@ func genOptions(rt *rapid.T, c *Case, ids []string, sp OptSpec) {
 			}
 			if cover == 3 {
 				c.Sizes["not-a-node"] = Sz{5, 5}
+				addHelperNamedKeys(rt, c, dim)
 			}
 		}
 	case 1, 2:
@@ -573,6 +574,7 @@ func genOptions(rt *rapid.T, c *Case, ids []string, sp OptSpec) {
 		for _, id := range ids {
 			c.Sizes[id] = Sz{dim("w", sp.Sizes == 1), dim("h", sp.Sizes == 1)}
 		}
+		addHelperNamedKeys(rt, c, dim)
 	case 3:
 		w, h := dim("uw", false), dim("uh", false)
 		if rapid.Bool().Draw(rt, "uniform_fixed") {
@@ -591,6 +593,20 @@ func genOptions(rt *rapid.T, c *Case, ids []string, sp OptSpec) {
 	}
 	if !(sp.DefaultsOK && chance(rt, "ls_default", 1, 6)) {
 		c.LS = ptr(dim("ls", sp.LSZero))
+	}
+}
+
+// addHelperNamedKeys: a size map may list keys that name no node of the graph - they must be ignored. Keys that look like
+// helper IDs (V1, NE0 ...) are the interesting ones: a seeded change (seeded/r3-m16) applied the size function to helper
+// nodes as well. Only added when no real node carries such an ID.
+func addHelperNamedKeys(rt *rapid.T, c *Case, dim func(string, bool) float64) {
+	if !chance(rt, "helper_named_keys", 1, 5) || hasHelperLikeID(c.Edges) {
+		return
+	}
+	for _, k := range []string{"V1", "V2", "V3", "NE0", "NE1"} {
+		if rapid.Bool().Draw(rt, "key_"+k) {
+			c.Sizes[k] = Sz{dim("xw", false), dim("xh", false)}
+		}
 	}
 }
 
